@@ -643,4 +643,60 @@ def exposed : Served → Option (Profile × Device)
 def serve (g : Gate) (profilesEnabled : Bool) (s : Srv) (db : DB) (rq : Req) : Served :=
   wrap g (findIn profilesEnabled s db (normAddrs rq))
 
+
+/-! ## Production wiring: from the configuration file to the finder's settings (`internal/cmd`)
+
+`serverGroups.toInternal` / `tlsConfig.toInternal` / `servers.toInternal` / `serverProto.toInternal` and
+`dnssvc.newDeviceFinder`: every server of a group gets the group's `device_id_wildcards` with the
+prefix `*.` trimmed as its device domains, the group's `profiles_enabled`, its own `linked_ip_enabled`
+and protocol, and — with `bind_addresses` — address binds only. -/
+
+/-- `strings.TrimPrefix(w, "*.")`. -/
+def trimStarDot : Str → Str
+  | '*' :: '.' :: r => r
+  | w => w
+
+/-- `serverProto.toInternal`: the protocol names of the configuration file. -/
+def protoOfYAML (n : Str) : Proto :=
+  if n = "dns".toList then .dns
+  else if n = "dnscrypt".toList then .dnscrypt
+  else if n = "https".toList then .doh
+  else if n = "quic".toList then .doq
+  else if n = "tls".toList then .dot
+  else .invalid
+
+/-- A `server_groups` entry as far as device recognition reads it. -/
+structure GroupConf where
+  profiles : Bool
+  /-- `tls.device_id_wildcards`, as written. -/
+  wildcards : List Str
+
+/-- A `servers` entry with `bind_addresses`. -/
+structure SrvConf where
+  proto : Str
+  linked : Bool
+  binds : List (IP × Nat)
+
+def noDup : List Str → Bool
+  | [] => true
+  | w :: r => !r.contains w && noDup r
+
+/-- `validateDeviceIDWildcards`: every entry starts with `*.`, no entry twice. -/
+def validWildcards (ws : List Str) : Bool :=
+  ws.all (fun w => ['*', '.'].isPrefixOf w) && noDup ws
+
+def deviceDomainsOf (g : GroupConf) : List Str := g.wildcards.map trimStarDot
+
+/-- The `agd.Server` + device domains that `newDeviceFinder` hands to `devicefinder.NewDefault`. -/
+def srvOfConf (g : GroupConf) (c : SrvConf) : Srv :=
+  { proto := protoOfYAML c.proto, linkedIP := c.linked,
+    binds := c.binds.map (fun b => .addr b.1 b.2), domains := deviceDomainsOf g }
+
+/-- One request on server `c` of group `g` of the configuration file. -/
+def findWired (g : GroupConf) (c : SrvConf) (db : DB) (rq : Req) : Result :=
+  findIn g.profiles (srvOfConf g c) db (normAddrs rq)
+
+def serveWired (gt : Gate) (g : GroupConf) (c : SrvConf) (db : DB) (rq : Req) : Served :=
+  serve gt g.profiles (srvOfConf g c) db rq
+
 end Agd.Device
